@@ -81,10 +81,12 @@ def run(tier):
             gen = (bal_visc if ci_ % 2 else bal).generation
             dirs = [start + j * 360.0 / N for j in range(N)]
             B = 4 if quick else 24
-            vds, winds, wdirs, depths = [], [], [], []
+            vds, winds, wdirs, depths, seas = [], [], [], [], []
             for b in range(B):
                 md = rng.uniform(0, 360)
-                vds.append(pc.sea(f, dirs, rng.uniform(0.1, 0.3), rng.uniform(0.5, 5.0), md, rng.uniform(20, 50)))
+                sea_ = (rng.uniform(0.1, 0.3), rng.uniform(0.5, 5.0), md, rng.uniform(20, 50))
+                seas.append(list(sea_))
+                vds.append(pc.sea(f, dirs, *sea_))
                 winds.append(rng.uniform(2.0, 35.0))
                 wdirs.append((md + rng.uniform(-60, 60)) % 360)
                 depths.append(rng.choice([np.inf, 25.0]))
@@ -127,8 +129,10 @@ def run(tier):
                     else:
                         lz = math.log(zb)
                         res = int(np.searchsorted(logs, lz))          # cell index: logs[res-1] <= lz < logs[res]
-                        res = max(res, 0)
-                    tr.add({"kind": "root", "what": "janssen z0 N=%d point=%d phase=%d" % (N, b, phase), "sg": sg, "res": res if res >= 1 else len(sg), "finite": 0})
+                        if res < 1:
+                            res = len(sg)                            # below the first scan point: outside every cell (0 is reserved for 'missing')
+                    tr.add({"kind": "root", "what": "janssen z0 N=%d point=%d phase=%d" % (N, b, phase), "sg": sg, "res": res, "finite": 0,
+                            "ctx": {"U10": float(winds[b]), "wind_dir": float(wdirs[b]), "depth": str(depths[b]), "z0": (zb if zb == zb else "nan"), "log_z0": (math.log(zb) if zb > 0 else "nan"), "viscous": float(par["viscous_stress_parameter"]), "sea": seas[b]}})
                     distinct.add(("janssen", N, start, b))
                     single = sum(1 for i in range(len(sg) - 1) if sg[i] * sg[i + 1] < 0) == 1 and 0 not in sg
                     if single and not math.isnan(zb):
